@@ -4,20 +4,23 @@
 (* AppCache!StepOK: a response not produced for this request is one that a GET *)
 (* of the same user for the same URL was given before.                         *)
 EXTENDS TraceCommon, FiniteSets
-VARIABLES kept, l
-C == INSTANCE AppCache WITH Users <- {}, Urls <- {}, MaxSteps <- 0, CacheHead <- FALSE,
-                            cache <- kept, n <- 0, last <- 0, okCache <- kept
+VARIABLES kept, alive, l
+C == INSTANCE AppCache WITH Users <- {}, Urls <- {}, MaxSteps <- 0, CacheHead <- FALSE, CacheFirst <- FALSE,
+                            cache <- kept, n <- 0, last <- 0, okCache <- kept, live <- alive
 Is(e) == l <= TLen /\ Trace[l].ev = e
 E == Trace[l]
 Step == l' = l + 1 /\ Mark(l)
-TInit == kept = <<>> /\ l = 1 /\ HWMInit
-TReset == Is("Reset") /\ kept' = <<>> /\ Step
-TStep == Is("CacheStep") /\ C!StepOK(E, kept)
+TInit == kept = <<>> /\ alive = TRUE /\ l = 1 /\ HWMInit
+TReset == Is("Reset") /\ kept' = <<>> /\ alive' = TRUE /\ Step
+\* the agents of the backends stop polling (the harness moves their last-seen time back by six minutes)
+TQuiet == Is("CacheQuiet") /\ alive' = FALSE /\ UNCHANGED kept /\ Step
+TStep == Is("CacheStep") /\ UNCHANGED alive
+         /\ (IF alive THEN C!StepOK(E, kept) ELSE (E.status = 404 /\ ~E.reached))
          /\ E.answered                                   \* every exchange is answered
          /\ kept' = (IF E.reached /\ E.method = "GET" /\ ~E.cc /\ E.status = 200
                        THEN [k \in DOMAIN kept \cup {C!Key(E.user, E.url)} |-> IF k = C!Key(E.user, E.url) THEN E.own ELSE kept[k]]
                        ELSE kept)
          /\ Step
-TNext == TReset \/ TStep
-TSpec == TInit /\ [][TNext]_<<kept, l>>
+TNext == TReset \/ TStep \/ TQuiet
+TSpec == TInit /\ [][TNext]_<<kept, alive, l>>
 =============================================================================
